@@ -18,7 +18,12 @@ def _make(path):
     def test(self):
         d = json.load(open(path))
         mod = importlib.import_module(f"vsgmc.props.{d['property'].lower()}")
-        keys = mod.reproduce(d["item"])
+        from . import explore
+
+        keys = set(mod.reproduce(d["item"]))
+        ctx = explore.context_of(d["item"])
+        if ctx:
+            keys |= {k + "|" + ctx[0] for k in keys}
         self.assertNotIn(d["key"], keys, f"{d['property']} violation reproduces: {d['key']}\n{json.dumps(d.get('detail'), default=str)[:1000]}")
 
     return test
